@@ -67,9 +67,9 @@ pub fn check_board(v: &Visit) -> CaseResult {
 
 pub fn run(ctx: &Ctx) -> Report {
     let mut rep = Report::new(ctx);
-    rep.rule = "Every position along generated histories (moves with bias to castles incl. king/rook not moving, EP captures, promotions, captures on right squares, double pushes; null moves; clock setters) from DFRC starts, seed FENs and constructed boards: hash() must equal the hash of the same position (a) built through the builder with different clocks, (b) parsed from its Shredder text, (c) parsed from plain FEN when expressible; hash_without_ep() must equal the hash of the builder-made position with the EP file cleared; and hash() must equal the XOR of per-feature keys extracted once from sparse boards (piece keys, king pseudo-keys, castle keys, EP keys, side key). Plus four-ply transposition pairs. Non-trivial = last op was a castle, EP capture, promotion, capture on a right's square, double push, or null move; distinct by (FEN, op) hash.".into();
+    rep.rule = "Every position along generated histories (moves with bias to castles incl. king/rook not moving, EP captures, promotions, captures on right squares, double pushes; null moves; clock setters) from DFRC starts, seed FENs and constructed boards: hash() must equal the hash of the same position (a) built through the builder with different clocks, (b) parsed from its Shredder text, (c) parsed from plain FEN when expressible; hash_without_ep() must equal the hash of the builder-made position with the EP file cleared; and hash() must equal the XOR of per-feature keys extracted once from sparse boards (piece keys, king pseudo-keys, castle keys, EP keys, side key). Plus four-ply transposition pairs, and the same route-independence checks on every board the parser returns for mutated / non-canonical text (e.g. rights written in another order). Non-trivial = last op was a castle, EP capture, promotion, capture on a right's square, double push, or null move; distinct by (FEN, op) hash.".into();
     rep.assumptions = vec!["reference view of the board via accessors".into(), "key extraction boards are accepted by the library (reported in evidence if not)".into()];
-    rep.required_classes = vec!["after:castle", "after:en-passant", "after:promotion", "after:capture-on-right-square", "after:double-push", "after:null", "after:double-push-replacing-ep", "castle-king-or-rook-stays"];
+    rep.required_classes = vec!["after:castle", "after:en-passant", "after:promotion", "after:capture-on-right-square", "after:double-push", "after:null", "after:double-push-replacing-ep", "castle-king-or-rook-stays", "parsed-noncanonical-text"];
     match model() {
         Err(e) => {
             let mut p = PartResult::empty();
@@ -148,10 +148,43 @@ pub fn run(ctx: &Ctx) -> Report {
         },
     ));
     rep.add(super::c03::transpositions(ctx, ctx.tier.scale(60_000, 25), "C10"));
+    // boards that came out of the parser for mutated / non-canonical text: same fields => same hash
+    rep.add(run_prop(ctx, "parsed-text", ctx.tier.scale(200_000, 25), crate::gen2::arb_fen_case, |fc: &crate::gen2::FenCase, st: &mut Stats| {
+        let text = fc.text();
+        for (mode, r) in [(0, cozy_chess::Board::from_fen(&text, false)), (1, cozy_chess::Board::from_fen(&text, true)), (2, text.parse::<cozy_chess::Board>())] {
+            let Ok(b) = r else { continue };
+            let p = pos_of_board(&b);
+            if !well_formed(&b, &p) {
+                continue;
+            }
+            st.eval(1);
+            st.class(if fc.muts.is_empty() { "parsed-canonical-text" } else { "parsed-mutated-text" });
+            let noncanonical = p.to_fen(mode != 0) != text && p.to_fen(mode == 0) != text;
+            st.class_if(noncanonical, "parsed-noncanonical-text");
+            if noncanonical {
+                st.nontrivial(fnv(text.as_bytes()));
+            }
+            let origin = format!("text:{}", text);
+            let v = Visit { board: &b, pos: &p, step: &Step::Start, hist: &[], origin: &origin };
+            check_board(&v).map_err(|f| f.with("text_hex", hex_encode(text.as_bytes())))?;
+        }
+        Ok(())
+    }));
     rep
 }
 
 pub fn replay(m: &ReplayMap) -> CaseResult {
+    if let Some(h) = m.get("text_hex") {
+        let text = String::from_utf8(hex_decode(h).unwrap_or_default()).unwrap_or_default();
+        for r in [cozy_chess::Board::from_fen(&text, false), cozy_chess::Board::from_fen(&text, true), text.parse::<cozy_chess::Board>()] {
+            if let Ok(b) = r {
+                let p = pos_of_board(&b);
+                let origin = format!("text:{}", text);
+                check_board(&Visit { board: &b, pos: &p, step: &Step::Start, hist: &[], origin: &origin })?;
+            }
+        }
+        return Ok(());
+    }
     if m.contains_key("route_a") {
         return super::c03::replay(m);
     }
